@@ -182,6 +182,21 @@ pub fn run_pool(w: &mut dyn WorldApi, g: &mut Gen, ev: &mut Ev, is_set: bool, re
     ev.sample(json!({"kind": kind, "container": if is_set {"PrefixSet"} else {"PrefixMap"}, "pool": members.iter().map(|m| format!("{} [{} entries]", m.how, m.m.len())).collect::<Vec<_>>()}));
     // ---- round trips: clone, collect (shuffled), into_iter().collect(), serde
     let scratch = slot(N + 1);
+    // serde with other value types (values that serialize to null must survive the round trip)
+    for mem in &members {
+        match guarded(|| w.serde_other_values(mem.slot)) {
+            Ok(None) => {}
+            Ok(Some(msg)) => {
+                ev.violation("C19/roundtrip/serde-other-value-types", format!("[{}] {}: {}", kind, mem.how, msg), replay.clone());
+                return;
+            }
+            Err(p) => {
+                ev.violation("C19/roundtrip-panic/serde-other-value-types", format!("[{}] serde round trip with Option / unit values panicked: {} at {}", kind, p.msg, p.site()), replay.clone());
+                return;
+            }
+        }
+        ev.count("roundtrip/serde_other_value_types", 1);
+    }
     for mem in &members {
         let mut hows = vec![ReplaceHow::Clone, ReplaceHow::IntoIterCollect, ReplaceHow::CollectShuffled(g.rng.next())];
         if w.serde_supported(scratch) {
